@@ -1,6 +1,6 @@
 """Per-property check plans: which model configurations TLC explores and on
 which systems the emitted behaviours are replayed."""
-from .core import Report, tour_stage, walk_stage, chunk_stage, crash_stage, conc_stage, fuzz_stage, repotests_stage
+from .core import Report, tour_stage, walk_stage, chunk_stage, crash_stage, conc_stage, fuzz_stage, repotests_stage, scale_stage
 from . import core
 
 ALL4 = ["mem", "bolt", "multimem", "multios"]
@@ -140,6 +140,9 @@ def c05(tier, seed, work):
                store_consts(Buckets={"bkt1"}, KeySetName="ab", CfgName="memenabled", Bodies={"x1"}, MaxVids=3, Ghosts=False,
                             OpNames={"PutObject", "DeleteMultiMixed", "DeleteObject", "GetObject"}),
                ["mem"], small=True, **st)
+    # beyond the small scope: a key versioned after the backend has issued 99990 version ids (the ids' leading digits
+    # change at 100000), read by id and deleted newest first
+    conc_stage(rep, work, "scale-version-counter", ["mem"], [1], runs=0, ops=0, keys=1, gated=False, big="counter")
     # direction B: long random version histories (status changes, version deletes, multi-deletes, copies) on three keys
     conc_stage(rep, work, "random-version-histories", ["mem"], [1], runs=24 if tier == "thorough" else 8, ops=0, keys=3,
                gated=False, seq=400 if tier == "thorough" else 200)
@@ -220,6 +223,9 @@ def c04(tier, seed, work):
     for km in ("rich", "rich2"):
         walk_stage(rep, work, "mem-walks-" + km, "MC_List", list_consts(MaxSet=2, MaxLen=2, PrefixLen=1, Delims={0, 47}),
                    ["mem"], "objects", invariants=["EmitInv"], view=None, emit=None, tlc_workers=8, keys=km)
+    # more than 1000 keys: the default page limit decides (no max-keys at all, 1000, 999, 400), on the paginating
+    # backend and on the fallback path (which must deliver everything at once)
+    scale_stage(rep, work, "scale-objects", "objects", ["mem", "bolt", "multimem"])
     # single pages under arbitrary markers (present, absent, inside a common prefix, beyond the end):
     # keys after the marker exactly; a common prefix the marker falls inside is optional
     tour_stage(rep, work, "mem-markers", "MC_List",
@@ -280,6 +286,8 @@ def c13(tier, seed, work):
                             OpNames={"CreateBucket", "PutObject", "DeleteObject", "PutVersioning",
                                      "DeleteObjectVersion"}),
                ["mem"], "versions", emit=None, invariants=["EmitState"])
+    # more than 1000 versions of one key: the default page limit decides
+    scale_stage(rep, work, "scale-versions", "versions", ["mem"])
     rep.assumptions += [
         "the order of versions inside one key is followed, not required",
         "walks take the unpaginated listing (itself compared with the specification by the audits) as the "
@@ -317,6 +325,8 @@ def c06(tier, seed, work):
                                 Ghosts=False, AfterRefusal=True,
                                 OpNames={"CreateBucket", "Initiate", "UploadPart", "Complete", "Abort"}),
                    ["mem"], small=True, memtrace=True, **st)
+    # beyond the small scope: one upload of 1003 parts (more than the listing page limit) completed with all of them
+    conc_stage(rep, work, "scale-1003-parts", ["mem", "bolt", "multimem"], [1], runs=0, ops=0, keys=1, gated=False, big="multipart")
     # three part numbers with a gap, lists that skip an uploaded part in the middle
     tour_stage(rep, work, "mp-gaps", "MC_Store",
                store_consts(Buckets={"bkt1"}, KeySetName="a", Bodies={"x1"}, PartNums={1, 2, 5}, PartBodies={"p1"},
@@ -376,6 +386,9 @@ def c14(tier, seed, work):
                store_consts(Buckets={"bkt1"}, KeySetName="nest", MaxUploads=4 if thorough else 3, Ghosts=False,
                             OpNames={"CreateBucket", "Initiate", "Abort"}),
                ["mem"], "uploads", emit=None, invariants=["EmitState"])
+    # more than 1000 parts (and part numbers up to 10000) / more than 1000 uploads: the default page limits decide
+    scale_stage(rep, work, "scale-parts", "parts", ["mem"])
+    scale_stage(rep, work, "scale-uploads", "uploads", ["mem"])
     rep.assumptions += [
         "ListMultipartUploads before any upload was initiated in the bucket is outside C14",
         "arbitrary numeric part-number markers are single-page tours: parts above the marker exactly",
@@ -387,14 +400,18 @@ def c11(tier, seed, work):
     rep = Report("C11", tier, seed)
     n = 12 if tier == "thorough" else 6
     common = dict(view=None, emit=None, invariants=["EmitInv", "Sound"])
-    tour_stage(rep, work, "ranges", "MC_Range", dict(N=n, CfgName="plain"), ALL4, **common)
-    tour_stage(rep, work, "ranges-single", "MC_Range", dict(N=n, CfgName="single"), ["singlemem", "singleos"], **common)
+    tour_stage(rep, work, "ranges", "MC_Range", dict(N=n, CfgName="plain", LargeSizes=set()), ALL4, **common)
+    tour_stage(rep, work, "ranges-single", "MC_Range", dict(N=n, CfgName="single", LargeSizes=set()), ["singlemem", "singleos"], **common)
     # ranges of objects met after a restart: the persistent backends reopened on their storage, and the single-bucket
     # backend restarted with an empty metadata store (objects without a metadata record, as files put into the served
     # directory by hand are)
-    tour_stage(rep, work, "ranges-after-restart", "MC_Range", dict(N=n, CfgName="plain"), ["bolt", "multios"], reopen=True, **common)
-    tour_stage(rep, work, "ranges-single-fresh-metadata", "MC_Range", dict(N=n, CfgName="single"), ["singlemem", "singleos"],
+    tour_stage(rep, work, "ranges-after-restart", "MC_Range", dict(N=n, CfgName="plain", LargeSizes=set()), ["bolt", "multios"], reopen=True, **common)
+    tour_stage(rep, work, "ranges-single-fresh-metadata", "MC_Range", dict(N=n, CfgName="single", LargeSizes=set()), ["singlemem", "singleos"],
                opts="freshmeta", reopen=True, **common)
+    # beyond the small scope: an object of 3 MiB + 17 bytes, bounds at and around multiples of 1 MiB and around its end
+    # (windows of exactly 1 and 2 MiB among them)
+    tour_stage(rep, work, "ranges-large-object", "MC_Range", dict(N=n, CfgName="plain", LargeSizes={3 * 1048576 + 17}),
+               ALL4 if tier == "thorough" else ["mem", "multimem"], hworkers=4, **common)
     rep.assumptions += [
         "values >= 2^31 are one symbolic bound 'beyond the end' (objects are smaller); >= 2^63 is malformed",
         "multi-range headers: 416 or 501 (a clean refusal); whitespace variants: the correct 206 or 416; suffix 0 not generated",
@@ -473,6 +490,9 @@ def c08(tier, seed, work):
     # a small configured metadata limit
     tour_stage(rep, work, "metalimit-200", "MC_Upload", dict(Integrity=True, CfgName="plain", FailPoints=set(), LongKeys=True),
                ["mem", "multimem"], opts="metalimit=200", **common)
+    # beyond the small scope: every attempt class with bodies of 1 MiB - 1, 1 MiB, 1 MiB + 1, 2 MiB and 5 MiB + 3
+    tour_stage(rep, work, "large-bodies", "MC_Upload", dict(Integrity=True, CfgName="plain", FailPoints=fp, LongKeys=False),
+               ALL4 if tier == "thorough" else ["mem", "multimem"], large=True, hworkers=8, **common)
     if tier == "thorough":
         tour_stage(rep, work, "big-bodies", "MC_Upload", dict(Integrity=True, CfgName="plain", FailPoints=fp, LongKeys=False), ALL4,
                    thorough=True, **common)
@@ -496,6 +516,10 @@ def c12(tier, seed, work):
     chunk_stage(rep, work, "scaled", dict(MaxChunk=3, MaxChunks=2, MaxFrag=3, MaxBuf=2),
                 ALL4 + ["singlemem"] if thorough else ["mem", "bolt", "multimem", "multios"], [11000] if not thorough else [11000, 350000],
                 e2e_every=4 if not thorough else 2)
+    # beyond the small scope: chunks of 1 MiB and more (one unit = 1 MiB / half a MiB + 1), which the key-value
+    # backends read with a single full-size Read
+    chunk_stage(rep, work, "scaled-1MiB", dict(MaxChunk=2, MaxChunks=2, MaxFrag=2, MaxBuf=2),
+                ["mem", "bolt", "multimem"], [1 << 20, (1 << 19) + 1] if thorough else [1 << 20], e2e_every=2 if thorough else 3)
     rep.assumptions += [
         "cosmetic framing deviations the decoder tolerates (signature text, bytes after a chunk, missing final chunk) are not 'malformed'",
         "fragment and buffer sizes follow cyclic patterns of length <= 2; the state-machine model covers all fragmentations at small scale",
@@ -527,6 +551,11 @@ def c01(tier, seed, work):
         tour_stage(rep, work, "rw-single-" + tag, "MC_Store",
                    dict(consts, CfgName="single", OpNames=ops - {"CreateBucket"}), ["singlemem", "singleos"], opts=o,
                    keys="both", thorough=thorough, **st)
+    # beyond the small scope: bodies around 1 MiB, of 5 and 8 MiB, and (key-value backends, which buffer whole bodies)
+    # of 33 and 64 MiB + 4 KiB -- written, read, HEADed, copied; validated by TraceConc
+    conc_stage(rep, work, "scale-bodies", ["mem", "bolt", "multimem", "multios", "singlemem"], [1], runs=0, ops=0, keys=1,
+               gated=False, big="huge")
+    conc_stage(rep, work, "scale-bodies-64MiB", ["mem", "bolt"], [1], runs=0, ops=0, keys=1, gated=False, big="huge64")
     # keys that flatten to the same metadata file name on the fs backends must keep their own ETag and metadata
     tour_stage(rep, work, "rw-colliding-keys", "MC_Store",
                store_consts(Buckets={"bkt1"}, KeySetName="coll", Bodies={"x1", "x2"}, Ghosts=False,
@@ -663,8 +692,8 @@ def c10(tier, seed, work):
                store_consts(Buckets={"bkt1"}, KeySetName="hostile4", Bodies={"x1", "x2"} if tier == "thorough" else {"x1"}, CfgName="single",
                             OpNames=ops4 - {"CreateBucket", "DeleteBucket"}),
                ["singlemem", "singleos"], small=True, **st)
-    # long keys identical in their first 220 bytes keep their own content and metadata (not on a real directory: the
-    # metadata file name of such a key exceeds NAME_MAX there)
+    # long keys identical in their first 260 bytes (one path segment longer than NAME_MAX) keep their own content and
+    # metadata and can be deleted (not on a real directory, which cannot hold such names)
     tour_stage(rep, work, "keys-long-shared-prefix", "MC_Store",
                store_consts(Buckets={"bkt1"}, KeySetName="longshared", Bodies={"x1", "x2"},
                             OpNames={"CreateBucket", "PutMeta", "PutMetaB", "GetObject", "HeadObject", "DeleteObject", "ListObjects"}),
